@@ -12,6 +12,9 @@
 #include "Stream/SliceReader.h"
 #include <cstring>
 #include <memory>
+#include <fcntl.h>
+#include <sys/stat.h>
+#include <unistd.h>
 #include <stdexcept>
 
 #if defined(__has_feature)
@@ -531,9 +534,10 @@ struct FileWriterMatrix : Family {
 		static const uint64_t SW[] = {1, 3, 7, 64};
 		p.setenv("short_write", r.chance(1, 2) ? 0 : SW[r.below(4)]);
 		p.setenv("eintr", r.chance(2, 3) ? 0 : r.range(2, 5));
-		// every run covers the whole 16 x 2 matrix in a seeded order, with seeded old content / written data
+		// every run covers the whole 16 x 4 matrix in a seeded order, with seeded old content / written data; what is at the
+		// destination beforehand: 0 nothing, 1 a regular file, 2 a FIFO (exists, is not a regular file), 3 a symbolic link to a regular file
 		std::vector<uint64_t> cells;
-		for (uint64_t c = 0; c < 32; ++c) cells.push_back(c);
+		for (uint64_t c = 0; c < 64; ++c) cells.push_back(c);
 		for (size_t i = cells.size(); i > 1; --i) std::swap(cells[i - 1], cells[r.below(i)]);
 		for (uint64_t c : cells) {
 			Line op = mkline("op", "open");
@@ -553,24 +557,44 @@ struct FileWriterMatrix : Family {
 			if (op.verb != "open") throw std::runtime_error("unknown op " + op.verb);
 			disk::wipe();
 			unsigned flags = static_cast<unsigned>(op.u("flags")) & 15;
-			bool exists = op.u("exists") != 0;
+			unsigned state = static_cast<unsigned>(op.u("exists")) & 3;
+			bool exists = state != 0, fifo = state == 2;
 			std::string path = op.get("path", "dest.bin");
 			bool inSub = path.rfind("sub/", 0) == 0;
 			std::vector<uint8_t> old = prngBytes(op.u("oldseed"), static_cast<size_t>(op.u("oldlen")));
-			if (exists) disk::put(path, old);
+			int fifoReader = -1;
+			if (state == 1) disk::put(path, old);
+			else if (state == 2) {
+				if (inSub) disk::mkdirs("sub");
+				if (mkfifo(path.c_str(), 0666) != 0) throw std::runtime_error("mkfifo failed");
+				fifoReader = open(path.c_str(), O_RDONLY | O_NONBLOCK); // a reader is present, so opening the FIFO for writing does not block
+				if (fifoReader < 0) throw std::runtime_error("cannot open the fifo for reading");
+			} else if (state == 3) {
+				std::string target = inSub ? "sub/target.bin" : "target.bin";
+				disk::put(target, old);
+				if (symlink("target.bin", path.c_str()) != 0) throw std::runtime_error("symlink failed");
+			}
 			auto before = disk::snapshot();
 			bool canExisting = flags & FW::CanOpenExisting, canNew = flags & FW::CanOpenNew, trunc = flags & FW::Truncate, app = flags & FW::Append;
 			bool refuse = (!canExisting && !canNew) || (trunc && app) || (!canExisting && exists) || (!canNew && !exists);
 			std::vector<uint8_t> d1 = prngBytes(op.u("wseed"), static_cast<size_t>(op.u("n1"))), d2 = prngBytes(op.u("wseed") ^ 1, static_cast<size_t>(op.u("n2")));
 			std::string what;
-			ctx.schedNote(std::to_string(flags) + (exists ? "e" : "n"));
+			ctx.schedNote(std::to_string(flags) + (state == 0 ? "n" : state == 1 ? "e" : state == 2 ? "f" : "l"));
 			Out o = callLib(plan, [&] {
 				FW w(path, static_cast<FW::OpenMode>(flags));
 				w.Write(d1.data(), d1.size());
 				w.Write(d2.data(), d2.size());
 			}, &what);
-			std::string desc = "FileWriter(" + path + ", flags=" + std::to_string(flags) + (canExisting ? " CanOpenExisting" : "") + (canNew ? " CanOpenNew" : "") + (trunc ? " Truncate" : "") + (app ? " Append" : "") + "), file " + (exists ? "exists with " + std::to_string(old.size()) + " bytes" : "does not exist");
+			std::string desc = "FileWriter(" + path + ", flags=" + std::to_string(flags) + (canExisting ? " CanOpenExisting" : "") + (canNew ? " CanOpenNew" : "") + (trunc ? " Truncate" : "") + (app ? " Append" : "") + "), destination " + (state == 2 ? "is a FIFO; " : state == 3 ? "is a symbolic link to a regular file; " : "") + "file " + (exists ? "exists with " + std::to_string(old.size()) + " bytes" : "does not exist");
+			if (fifoReader >= 0) { char sink[4096]; while (read(fifoReader, sink, sizeof sink) > 0) {} close(fifoReader); }
 			if (o == ErrOther) ctx.fail("C14.open-matrix", desc + ": threw a non-std exception");
+			if (fifo && !refuse) {
+				// something exists there that is not a regular file: whether it can be opened is the object's business (a FIFO cannot
+				// be positioned at its end, for instance); only the refusals the flags demand are asserted
+				ctx.count(o == OkOut ? "probe.fifo_opened" : "probe.fifo_open_failed");
+				ctx.event("open " + std::to_string(flags) + " fifo");
+				continue;
+			}
 			if (refuse) {
 				if (o == OkOut) ctx.fail("C14.open-matrix", desc + ": open must be refused but succeeded");
 				auto after = disk::snapshot();
